@@ -105,8 +105,7 @@ static int flat_xor_hd_min_fragments(void *desc,
         (struct flat_xor_hd_descriptor *) desc;
 
     xor_code_t *xor_desc = (xor_code_t *) xdesc->xor_desc;
-    xor_desc->fragments_needed(xor_desc, missing_idxs, fragments_to_exclude, fragments_needed);
-    return 0;
+    return xor_desc->fragments_needed(xor_desc, missing_idxs, fragments_to_exclude, fragments_needed);
 }
 
 /**
